@@ -213,7 +213,7 @@ def main():
     cases = corpus_cases()
     ncorpus = len(cases)
     cases += fixed_cases()
-    for _ in range(500 if c.tier == "quick" else 12000):
+    for _ in range(500 if c.tier == "quick" else 4000):
         cases.append(gen_case(rng, stats))
     ties_seen = {}
 
